@@ -239,6 +239,13 @@ def record(driver, name, events, mix="all", groups="G1,G2", build="release", fea
         rc, out, dt = sh(cmd, cwd=WORK, timeout=timeout, check=False)
     except subprocess.TimeoutExpired:
         raise ToolError("record timed out (%s)" % name)
+    if rc == 101:
+        # the recorder aborted: an honest call of the real library returned an error or panicked where the driver
+        # (which runs clean on the unchanged tree) relies on it.  That is an observation, not a tool failure: the
+        # trace becomes one `Abort` event, which no trace specification accepts.
+        with open(tp, "w") as f:
+            f.write(json.dumps({"ev": "Abort", "seq": 1, "driver": driver, "why": out[-1500:]}) + "\n")
+        return tp, 1, dt
     if rc != 0:
         raise ToolError("record harness failed (rc=%d): %s" % (rc, out[-3000:]))
     n = sum(1 for _ in open(tp))
